@@ -37,44 +37,3 @@ func init() {
 		w.WriteByte('\n')
 	}
 }
-
-// SACTRACE P 22 hex.. S 6 hex.. I 2 len hex..  ->  OK E ratioNeg adimcOver fracpOver O 5 len hex.. S 6 hex..
-// (first time step of each event, -1 = never).  Runs the copy of sacramento() in rr_sactrace.go.
-func init() {
-	commands["SACTRACE"] = func(t *toks, w *bufio.Writer) {
-		t.expect("P")
-		ps := t.floats(t.int())
-		t.expect("S")
-		ss := t.floats(t.int())
-		t.expect("I")
-		k := t.int()
-		length := t.int()
-		if !sacTraceAvailable {
-			fmt.Fprintln(w, "UNAVAILABLE")
-			return
-		}
-		if len(ps) != 22 || len(ss) < 6 || k != 2 {
-			fmt.Fprintln(w, "BADCASE")
-			return
-		}
-		rain := t.floats(length)
-		pet := t.floats(length)
-		outs := make([][]float64, 5)
-		for i := range outs {
-			outs[i] = make([]float64, length)
-		}
-		ev := sacEvents{-1, -1, -1, -1}
-		s0, s1, s2, s3, s4, s5 := sacTrace(rain, pet, ss[0], ss[1], ss[2], ss[3], ss[4], ss[5],
-			ps[0], ps[1], ps[2], ps[3], ps[4], ps[5], ps[6], ps[7], ps[8], ps[9], ps[10], ps[11], ps[12], ps[13],
-			ps[14], ps[15], ps[16], ps[17], ps[18], ps[19], ps[20], ps[21],
-			outs[0], outs[1], outs[2], outs[3], outs[4], &ev)
-		fmt.Fprintf(w, "OK E %d %d %d %d O 5 %d", ev.ratioNeg, ev.adimcOver, ev.fracpOver, ev.preGuard, length)
-		for i := 0; i < 5; i++ {
-			for j := 0; j < length; j++ {
-				w.WriteByte(' ')
-				w.WriteString(hex(outs[i][j]))
-			}
-		}
-		fmt.Fprintf(w, " S 6 %s %s %s %s %s %s\n", hex(s0), hex(s1), hex(s2), hex(s3), hex(s4), hex(s5))
-	}
-}
